@@ -305,6 +305,18 @@ fn complete_prefix<S: HasComponent<Component>>(
     input: &mut vm::ExecutionInput<S>,
 ) -> txl::Result<()> {
     // BUG: spaces and \relax are allowed after prefixes per TeX source sections 1211 and 404.
+    // A loop, not a recursion: a long run of prefixes must not use one stack frame each.
+    loop {
+        if !read_one_prefix(prefix, input)? {
+            return Ok(());
+        }
+    }
+}
+
+fn read_one_prefix<S: HasComponent<Component>>(
+    prefix: &mut Prefix,
+    input: &mut vm::ExecutionInput<S>,
+) -> txl::Result<bool> {
     let found_prefix = match input.next()? {
         None => false,
         Some(t) => match t.value() {
@@ -330,10 +342,7 @@ fn complete_prefix<S: HasComponent<Component>>(
             }
         },
     };
-    if !found_prefix {
-        return Ok(());
-    }
-    complete_prefix(prefix, input)
+    Ok(found_prefix)
 }
 
 fn assert_only_global_prefix<S: TexlangState>(
